@@ -1,6 +1,8 @@
 import Goyang.Lemmas.AugmentReport
 import Goyang.Lemmas.AugmentPaths
 import Goyang.Lemmas.AugmentExamples
+import Goyang.Lemmas.AugmentErrs
+import Goyang.Lemmas.AugmentErrsExamples
 /-
 C07 — augments are applied exactly once, order-independently, or reported.
 Property theorems only; the work is in Goyang/Lemmas/Augment*.lean.
@@ -67,6 +69,8 @@ namespace Goyang.Props.C07
 open Goyang.Model Goyang.Spec.Augment
 open Goyang.Lemmas.AugmentConfl Goyang.Lemmas.AugmentTree Goyang.Lemmas.AugmentModel Goyang.Lemmas.AugmentStep
 open Goyang.Lemmas.AugmentLoop Goyang.Lemmas.Augment Goyang.Lemmas.AugmentReport Goyang.Lemmas.AugmentPaths
+open Goyang.Lemmas.AugmentErrs (FErr FKU)
+open Goyang.Spec.Tree (KeysUnique)
 
 /-! ### the reference semantics is well defined -/
 
@@ -280,6 +284,157 @@ theorem collision_in_every_order (R : Res) (fuel1 fuel2 : Nat) (mods1 mods2 : Ar
     · exact h (hfr ev hev).1
     · exact (hfr ev hev).2 h
 
+/-! ### (d′) order independence of the ERROR LIST
+
+`FErr f er`: error `er` is recorded somewhere in a tree of `f` (one that `tree?` finds); with one tree
+per id this is membership in the sweep `allErrs f` (`GetErrors`).  `FKU f`: every tree has
+`Spec.Tree.KeysUnique` (C04: sibling names pairwise different, at most one rpc input / output at
+every node).  The pure-value model needs both where Go has maps and pointers: `updateAt` rewrites
+every child of the name on its path and `setTree` every tree of the id. -/
+
+/-- **Upper bound on the errors of one application** (with the lower bound: it is exact).  A
+successful attempt adds to the errors recorded in the forest the errors recorded inside the augment
+entry (`merge` imports them) and the `duplicate-node` error positioned at the augment statement —
+the latter exactly when a body name is repeated or already a child of the target; nothing else. -/
+theorem application_errors (R : Res) (id : Nat) (nsOf : String) (a : Entry) (f f' : Forest)
+    (h : attemptR R id false nsOf a f = (f', true)) (hku : FKU f) (er : Err) :
+    FErr f' er ↔ FErr f er ∨ er ∈ a.allErrors ∨
+      (er = Err.at_ a.d.node "duplicate-node" ∧
+        (¬ (absAug R f id a).roots.Nodup ∨ (absAug R f id a).Collides (viewOf f))) := by
+  have hout := Goyang.Lemmas.AugmentErrs.attempt_errs R id nsOf a f
+  rw [h] at hout
+  generalize hfe : (f', true) = res at hout
+  cases hout with
+  | fail _ _ _ _ => simp at hfe
+  | ok f'' _ _ h3 =>
+    simp only [Prod.mk.injEq, and_true] at hfe
+    subst hfe
+    exact h3 hku er
+
+/-- A failed attempt of the loop adds nothing — except the `other` error `Find` records on the root
+of the owner's tree when the first prefix of the path denotes no module. -/
+theorem failed_attempt_errors (R : Res) (id : Nat) (nsOf : String) (a : Entry) (f f' : Forest)
+    (h : attemptR R id false nsOf a f = (f', false)) (hku : FKU f) (er : Err) :
+    FErr f' er ↔ FErr f er ∨ (er = Err.bare "other" ∧ R.tgt id a = .badPrefix ∧ (f.tree? id).isSome = true) := by
+  have hout := Goyang.Lemmas.AugmentErrs.attempt_errs R id nsOf a f
+  rw [h] at hout
+  generalize hfe : (f', false) = res at hout
+  cases hout with
+  | ok _ _ _ _ => simp at hfe
+  | fail f'' _ _ h3 =>
+    simp only [Prod.mk.injEq, and_true] at hfe
+    subst hfe
+    exact h3 hku er
+
+/-- **The error list of the loop.**  For a forest with one tree per id and unique keys, and applied
+augment bodies with unique keys: `GetErrors` after the loop sweeps exactly the errors recorded before
+the loop, the `other` error when some pending augment of an existing tree has an unresolvable first
+prefix, the errors recorded inside the APPLIED augment entries, and, for each applied augment, the
+`duplicate-node` error at its statement when — and only when — its application collided. -/
+theorem loop_error_set (R : Res) (fuel : Nat) (mods : Array Nat) (s : PState) (hcov : Cover s mods) (hfuel : 0 < fuel)
+    (hids : (s.forest.trees.map (·.1)).Nodup) (hku : ∀ t ∈ s.forest.trees, KeysUnique t.2)
+    (hbody : ∀ ev ∈ loopTrace R fuel mods s, ∀ c ∈ ev.aug.dir, KeysUnique c) (er : Err) :
+    er ∈ allErrs (loopState R fuel mods s).forest ↔
+      er ∈ allErrs s.forest ∨
+      (er = Err.bare "other" ∧
+        ∃ id a, a ∈ s.pendingOf id ∧ R.tgt id a = .badPrefix ∧ (s.forest.tree? id).isSome = true) ∨
+      ∃ ev ∈ loopTrace R fuel mods s, er ∈ ev.aug.allErrors ∨
+        (er = Err.at_ ev.aug.d.node "duplicate-node" ∧
+          (¬ (absEv R s.forest ev).roots.Nodup ∨ (absEv R s.forest ev).Collides (viewOf ev.before))) :=
+  Goyang.Lemmas.AugmentErrs.loop_errs R fuel mods s hcov hfuel hids hku hbody er
+
+/-- **Confluence on the error list.**  Two runs of the loop from the same forest over the same
+pending sets (any module lists that mention the trees with pending augments, any order inside the
+pending lists).  If no application of the first run collides, both runs end with the same SET of
+recorded errors, hence with the same canonical (sorted, duplicate-free) error list. -/
+theorem augment_loop_confluent_errors (R : Res) (fuel1 fuel2 : Nat) (mods1 mods2 : Array Nat) (s1 s2 : PState)
+    (hforest : s2.forest = s1.forest) (hpend : ∀ id a, a ∈ s2.pendingOf id ↔ a ∈ s1.pendingOf id)
+    (hn1 : NodupPending s1) (hn2 : NodupPending s2) (hcov1 : Cover s1 mods1) (hcov2 : Cover s2 mods2)
+    (hfuel1 : mu s1 < fuel1) (hfuel2 : mu s2 < fuel2)
+    (hids : (s1.forest.trees.map (·.1)).Nodup) (hku : ∀ t ∈ s1.forest.trees, KeysUnique t.2)
+    (hbody : ∀ ev ∈ loopTrace R fuel1 mods1 s1, ∀ c ∈ ev.aug.dir, KeysUnique c)
+    (hfr1 : ∀ ev ∈ loopTrace R fuel1 mods1 s1, EvFree R s1.forest ev) :
+    (∀ er, er ∈ allErrs (loopState R fuel2 mods2 s2).forest ↔ er ∈ allErrs (loopState R fuel1 mods1 s1).forest) ∧
+    canonErrs (allErrs (loopState R fuel2 mods2 s2).forest) = canonErrs (allErrs (loopState R fuel1 mods1 s1).forest) := by
+  have h := Goyang.Lemmas.AugmentErrs.loop_errs_confluent R fuel1 fuel2 mods1 mods2 s1 s2 hforest hpend hn1 hn2 hcov1 hcov2
+    hfuel1 hfuel2 hids hku hbody hfr1
+  exact ⟨h, Goyang.Lemmas.AugmentErrs.canonErrs_set_invariant h⟩
+
+/-- The same with the observable hypothesis of `augment_loop_confluent`: the first run leaves no
+`duplicate-node` error.  Then the second run's error list is the first's — in particular it has no
+`duplicate-node` error either. -/
+theorem augment_loop_confluent_errors_observed (R : Res) (fuel1 fuel2 : Nat) (mods1 mods2 : Array Nat) (s1 s2 : PState)
+    (hforest : s2.forest = s1.forest) (hpend : ∀ id a, a ∈ s2.pendingOf id ↔ a ∈ s1.pendingOf id)
+    (hn1 : NodupPending s1) (hn2 : NodupPending s2) (hcov1 : Cover s1 mods1) (hcov2 : Cover s2 mods2)
+    (hfuel1 : mu s1 < fuel1) (hfuel2 : mu s2 < fuel2)
+    (hids : (s1.forest.trees.map (·.1)).Nodup) (hku : ∀ t ∈ s1.forest.trees, KeysUnique t.2)
+    (hbody : ∀ ev ∈ loopTrace R fuel1 mods1 s1, ∀ c ∈ ev.aug.dir, KeysUnique c)
+    (hfree : ∀ er ∈ allErrs (loopState R fuel1 mods1 s1).forest, er.cls ≠ "duplicate-node") :
+    (∀ er, er ∈ allErrs (loopState R fuel2 mods2 s2).forest ↔ er ∈ allErrs (loopState R fuel1 mods1 s1).forest) ∧
+    canonErrs (allErrs (loopState R fuel2 mods2 s2).forest) = canonErrs (allErrs (loopState R fuel1 mods1 s1).forest) ∧
+    (∀ er ∈ allErrs (loopState R fuel2 mods2 s2).forest, er.cls ≠ "duplicate-node") := by
+  have hfr1 := chain_free_of_no_dup_err (loop_run R fuel1 mods1 s1 hn1 hcov1 hfuel1).1
+    (fun er h => hfree er (fVisErr_allErrs h))
+  obtain ⟨h1, h2⟩ := augment_loop_confluent_errors R fuel1 fuel2 mods1 mods2 s1 s2 hforest hpend hn1 hn2 hcov1 hcov2
+    hfuel1 hfuel2 hids hku hbody hfr1
+  exact ⟨h1, h2, fun er her => hfree er ((h1 er).mp her)⟩
+
+/-- **One order ends without errors iff every other order does.**  Only augment entries WITHOUT
+recorded errors are asked to have unique keys (an entry with errors is never applied in a clean run:
+its errors would be imported). -/
+theorem augment_loop_clean_iff (R : Res) (fuel1 fuel2 : Nat) (mods1 mods2 : Array Nat) (s1 s2 : PState)
+    (hforest : s2.forest = s1.forest) (hpend : ∀ id a, a ∈ s2.pendingOf id ↔ a ∈ s1.pendingOf id)
+    (hn1 : NodupPending s1) (hn2 : NodupPending s2) (hcov1 : Cover s1 mods1) (hcov2 : Cover s2 mods2)
+    (hfuel1 : mu s1 < fuel1) (hfuel2 : mu s2 < fuel2)
+    (hids : (s1.forest.trees.map (·.1)).Nodup) (hku : ∀ t ∈ s1.forest.trees, KeysUnique t.2)
+    (hbody : ∀ id, ∀ a ∈ s1.pendingOf id, a.allErrors = [] → ∀ c ∈ a.dir, KeysUnique c) :
+    allErrs (loopState R fuel1 mods1 s1).forest = [] ↔ allErrs (loopState R fuel2 mods2 s2).forest = [] := by
+  constructor
+  · exact Goyang.Lemmas.AugmentErrs.loop_clean_imp R fuel1 fuel2 mods1 mods2 s1 s2 hforest hpend hn1 hn2 hcov1 hcov2
+      hfuel1 hfuel2 hids hku hbody
+  · exact Goyang.Lemmas.AugmentErrs.loop_clean_imp R fuel2 fuel1 mods2 mods1 s2 s1 hforest.symm
+      (fun id a => (hpend id a).symm) hn2 hn1 hcov2 hcov1 hfuel2 hfuel1 (by rw [hforest]; exact hids)
+      (by rw [hforest]; exact hku) (fun id a ha => hbody id a ((hpend id a).mp ha))
+
+/-- `collision_in_every_order` on the error list: an application of some order that collides puts a
+`duplicate-node` error into the error list of EVERY order. -/
+theorem collision_error_in_every_order (R : Res) (fuel1 fuel2 : Nat) (mods1 mods2 : Array Nat) (s1 s2 : PState)
+    (hforest : s2.forest = s1.forest) (hpend : ∀ id a, a ∈ s2.pendingOf id ↔ a ∈ s1.pendingOf id)
+    (hn1 : NodupPending s1) (hn2 : NodupPending s2) (hcov1 : Cover s1 mods1) (hcov2 : Cover s2 mods2)
+    (hfuel1 : mu s1 < fuel1) (hfuel2 : mu s2 < fuel2)
+    (ev : Ev) (hev : ev ∈ loopTrace R fuel2 mods2 s2)
+    (hbad : ¬ (absEv R s1.forest ev).roots.Nodup ∨ (absEv R s1.forest ev).Collides (viewOf ev.before)) :
+    (∃ er ∈ allErrs (loopState R fuel2 mods2 s2).forest, er.cls = "duplicate-node") ∧
+    (∃ er ∈ allErrs (loopState R fuel1 mods1 s1).forest, er.cls = "duplicate-node") := by
+  obtain ⟨⟨e2, h2, c2⟩, ⟨e1, h1, c1⟩⟩ := collision_in_every_order R fuel1 fuel2 mods1 mods2 s1 s2 hforest hpend hn1 hn2
+    hcov1 hcov2 hfuel1 hfuel2 ev hev hbad
+  exact ⟨⟨e2, fVisErr_allErrs h2, c2⟩, ⟨e1, fVisErr_allErrs h1, c1⟩⟩
+
+/-- The converse tie between the error list and the applications: a `duplicate-node` error in the
+error list of one order that was not there before the loop and is not recorded inside a pending
+augment entry stems from a colliding application — so every other order reports a `duplicate-node`
+error too. -/
+theorem fresh_duplicate_error_in_every_order (R : Res) (fuel1 fuel2 : Nat) (mods1 mods2 : Array Nat) (s1 s2 : PState)
+    (hforest : s2.forest = s1.forest) (hpend : ∀ id a, a ∈ s2.pendingOf id ↔ a ∈ s1.pendingOf id)
+    (hn1 : NodupPending s1) (hn2 : NodupPending s2) (hcov1 : Cover s1 mods1) (hcov2 : Cover s2 mods2)
+    (hfuel1 : mu s1 < fuel1) (hfuel2 : mu s2 < fuel2)
+    (hids : (s1.forest.trees.map (·.1)).Nodup) (hku : ∀ t ∈ s1.forest.trees, KeysUnique t.2)
+    (hbody : ∀ ev ∈ loopTrace R fuel1 mods1 s1, ∀ c ∈ ev.aug.dir, KeysUnique c)
+    (er : Err) (her : er ∈ allErrs (loopState R fuel1 mods1 s1).forest) (hcls : er.cls = "duplicate-node")
+    (hnew : er ∉ allErrs s1.forest) (hnotbody : ∀ id, ∀ a ∈ s1.pendingOf id, er ∉ a.allErrors) :
+    (∃ ev ∈ loopTrace R fuel1 mods1 s1, er = Err.at_ ev.aug.d.node "duplicate-node" ∧
+      (¬ (absEv R s1.forest ev).roots.Nodup ∨ (absEv R s1.forest ev).Collides (viewOf ev.before))) ∧
+    ∃ er' ∈ allErrs (loopState R fuel2 mods2 s2).forest, er'.cls = "duplicate-node" := by
+  have hbook1 := (loop_run R fuel1 mods1 s1 hn1 hcov1 hfuel1).2.1
+  rcases (loop_error_set R fuel1 mods1 s1 hcov1 (by omega) hids hku hbody er).mp her with h | ⟨h, _⟩ | ⟨ev, hev, h | ⟨h1, h2⟩⟩
+  · exact absurd h hnew
+  · rw [h] at hcls; exact absurd hcls (by decide)
+  · exact absurd h (hnotbody ev.owner ev.aug (hbook1.fromPending ev hev))
+  · refine ⟨⟨ev, hev, h1, h2⟩, ?_⟩
+    obtain ⟨_, ⟨e2, h3, c2⟩⟩ := collision_in_every_order R fuel2 fuel1 mods2 mods1 s2 s1 hforest.symm
+      (fun id a => (hpend id a).symm) hn2 hn1 hcov2 hcov1 hfuel2 hfuel1 ev hev h2
+    exact ⟨e2, fVisErr_allErrs h3, c2⟩
+
 /-! ### (e) exactly once -/
 
 /-- Every pending augment is applied at most once (the trace has no repetition), and it is
@@ -466,6 +621,54 @@ example : (phaseR Bad.R [1] 4 Bad.unfound).2.1 = [] ∧ (phaseR Bad.R [1] 4 Bad.
   constructor <;> (apply List.eq_nil_of_length_eq_zero; decide)
 example : (allErrs (phaseR Bad.R [1] 4 Bad.unfound).1.forest).map (fun e => (e.line, e.cls)) =
     [(30, "augment-not-found"), (40, "augment-not-found")] := by decide
+
+/-! #### the error list (d′): a body with a recorded error, a chain, an unknown prefix, two orders -/
+
+example : NodupPending Errs.s1 ∧ NodupPending Errs.s2 := ⟨nodupPending_of _ (by decide), nodupPending_of _ (by decide)⟩
+example : Cover Errs.s1 #[2, 1] ∧ Cover Errs.s2 #[1, 2, 1] := ⟨cover_of _ _ (by decide), cover_of _ _ (by decide)⟩
+example : mu Errs.s1 < 4 ∧ mu Errs.s2 < 4 := by decide
+example : Errs.s2.forest = Errs.s1.forest := rfl
+example : ∀ id a, a ∈ Errs.s2.pendingOf id ↔ a ∈ Errs.s1.pendingOf id := by
+  intro id a
+  have h : ∀ id, Errs.s2.pendingOf id = Errs.s1.pendingOf id ∨
+      (Errs.s2.pendingOf id = [Errs.e3, Errs.e2] ∧ Errs.s1.pendingOf id = [Errs.e2, Errs.e3]) := by
+    intro id
+    match id with
+    | 0 => exact Or.inl rfl
+    | 1 => exact Or.inl rfl
+    | 2 => exact Or.inr ⟨rfl, rfl⟩
+    | n + 3 => exact Or.inl rfl
+  rcases h id with h | ⟨h2, h1⟩
+  · rw [h]
+  · rw [h1, h2]; simp [or_comm]
+/-- one tree per id, unique keys in every tree and in every applied augment body -/
+example : (Errs.s1.forest.trees.map (·.1)).Nodup ∧ (∀ t ∈ Errs.s1.forest.trees, KeysUnique t.2) := by decide
+example : ∀ ev ∈ loopTrace Errs.R 4 #[2, 1] Errs.s1, ∀ c ∈ ev.aug.dir, KeysUnique c := by decide
+example : ∀ id, ∀ a ∈ Errs.s1.pendingOf id, a.allErrors = [] → ∀ c ∈ a.dir, KeysUnique c := by
+  intro id a ha
+  have : ∀ p ∈ Errs.s1.pending, ∀ a ∈ p.2, a.allErrors = [] → ∀ c ∈ a.dir, KeysUnique c := by decide
+  rcases pendingOf_cases Errs.s1 id with h | ⟨p, hp, _, h⟩
+  · rw [h] at ha; cases ha
+  · rw [h] at ha; exact this p hp a ha
+/-- the first order leaves no `duplicate-node` error (hypothesis of `augment_loop_confluent_errors_observed`) -/
+example : ∀ er ∈ allErrs (loopState Errs.R 4 #[2, 1] Errs.s1).forest, er.cls ≠ "duplicate-node" := by decide
+/-- both orders apply the chain (the second link of module o after the first of module n) … -/
+example : (loopTrace Errs.R 4 #[2, 1] Errs.s1).map (fun ev => (ev.owner, ev.aug.d.name)) = [(1, "/m:c"), (2, "/m:c/n:d")] ∧
+    (loopTrace Errs.R 4 #[1, 2, 1] Errs.s2).map (fun ev => (ev.owner, ev.aug.d.name)) = [(1, "/m:c"), (2, "/m:c/n:d")] := by
+  decide
+/-- … and sweep the same errors: the error recorded inside the applied body (on the target and in the
+grafted copy) and the `other` error of the unknown prefix, once per attempt — as lists they differ
+(the first order attempts `/zz:q` three times, the second twice), as sets and as canonical lists
+they are equal, which is what `augment_loop_confluent_errors` says. -/
+example : (allErrs (loopState Errs.R 4 #[2, 1] Errs.s1).forest).map (fun e => (e.line, e.cls)) =
+      [(11, "unknown-type"), (11, "unknown-type"), (0, "other"), (0, "other"), (0, "other")] ∧
+    (allErrs (loopState Errs.R 4 #[1, 2, 1] Errs.s2).forest).map (fun e => (e.line, e.cls)) =
+      [(11, "unknown-type"), (11, "unknown-type"), (0, "other"), (0, "other")] := by decide
+/-- the collision scenario (`Bad.collide`) satisfies the hypotheses of `fresh_duplicate_error_in_every_order`:
+the error of the first order is new and is not recorded inside a pending entry -/
+example : (Bad.collide.forest.trees.map (·.1)).Nodup ∧ (∀ t ∈ Bad.collide.forest.trees, KeysUnique t.2) ∧
+    (∀ ev ∈ loopTrace Bad.R 3 #[1, 2] Bad.collide, ∀ c ∈ ev.aug.dir, KeysUnique c) ∧
+    allErrs Bad.collide.forest = [] ∧ (∀ p ∈ Bad.collide.pending, ∀ a ∈ p.2, a.allErrors = []) := by decide
 
 end Examples
 
